@@ -17,6 +17,7 @@ import (
 	"flag"
 	"fmt"
 	"os"
+	"runtime/debug"
 	"runtime/pprof"
 	"sort"
 	"strings"
@@ -126,10 +127,15 @@ type ghost struct {
 	Snaps   int               // snapshot rotations so far
 	NoRelay bool
 	depth   int
+	// caches (never part of the key; disabled by env.nocache): observation and
+	// store digest of this node's state / of the parent's state
+	obsHere, parentObs *obs
+	digHere, parentDig string
 }
 
 func (g *ghost) Clone() explore.Ghost {
-	n := &ghost{Jobs: map[string]*jobRec{}, Calls: map[string][]call{}, MaxID: map[string]uint64{}, Snaps: g.Snaps, NoRelay: g.NoRelay, depth: g.depth + 1}
+	n := &ghost{Jobs: map[string]*jobRec{}, Calls: map[string][]call{}, MaxID: map[string]uint64{}, Snaps: g.Snaps, NoRelay: g.NoRelay, depth: g.depth + 1,
+		parentObs: g.obsHere, parentDig: g.digHere}
 	for k, v := range g.Jobs {
 		n.Jobs[k] = v // records are never mutated
 	}
@@ -154,7 +160,13 @@ type qmsg struct {
 	Raw  string // digest of the queued message's consensus payload
 }
 
-type obs map[string][]qmsg // queue name -> messages in queue order
+// obs is what the oracle sees of the consensus module: the messages of the two
+// turnstone queues (read through the keeper) and a digest of every other entry
+// of the consensus store except the global id counter.
+type obs struct {
+	Q     map[string][]qmsg // turnstone queue name -> messages in queue order
+	Other string
+}
 
 type env struct {
 	w         *world.World
@@ -168,6 +180,8 @@ type env struct {
 	feesFull  map[string]*treasurytypes.RelayerFeeSetting
 	feesNoA   map[string]*treasurytypes.RelayerFeeSetting
 	maxSnaps  int
+	nocache   bool
+	other0    string
 }
 
 type contract struct {
@@ -176,9 +190,24 @@ type contract struct {
 	Legacy bool // speaks the legacy custom message
 }
 
-func (e *env) observe(ctx sdk.Context) (obs, *explore.Fail) {
-	o := obs{}
+func (e *env) observe(ctx sdk.Context) (*obs, *explore.Fail) {
+	o := &obs{Q: map[string][]qmsg{}}
 	cdc := e.w.App.AppCodec()
+	{
+		h := sha256.New()
+		it := ctx.KVStore(e.w.App.GetKey("palomaconsensus")).Iterator(nil, nil)
+		for ; it.Valid(); it.Next() {
+			k := string(it.Key())
+			if strings.Contains(k, "consensus-queue-counter-") || strings.Contains(k, e.queues[0]) || strings.Contains(k, e.queues[1]) {
+				continue
+			}
+			fmt.Fprintf(h, "%d:%d:", len(k), len(it.Value()))
+			h.Write(it.Key())
+			h.Write(it.Value())
+		}
+		it.Close()
+		o.Other = hex.EncodeToString(h.Sum(nil)[:12])
+	}
 	for _, q := range e.queues {
 		msgs, err := e.w.App.ConsensusKeeper.GetMessagesFromQueue(ctx, q, 0)
 		if err != nil {
@@ -206,21 +235,39 @@ func (e *env) observe(ctx sdk.Context) (obs, *explore.Fail) {
 					x.Kind = fmt.Sprintf("other:%T", a)
 				}
 			}
-			o[q] = append(o[q], x)
+			o.Q[q] = append(o.Q[q], x)
 		}
 	}
 	return o, nil
 }
 
-func slcOnly(o obs) string {
+func sameObs(a, b *obs) bool {
+	if a.Other != b.Other || len(a.Q) != len(b.Q) {
+		return false
+	}
+	for q, ms := range a.Q {
+		if len(ms) != len(b.Q[q]) {
+			return false
+		}
+		for i := range ms {
+			if ms[i] != b.Q[q][i] {
+				return false
+			}
+		}
+	}
+	return true
+}
+
+func slcOnly(o *obs) string {
 	var sb strings.Builder
-	qs := make([]string, 0, len(o))
-	for q := range o {
+	qs := make([]string, 0, len(o.Q))
+	for q := range o.Q {
 		qs = append(qs, q)
 	}
 	sort.Strings(qs)
+	sb.WriteString("other=" + o.Other + ";")
 	for _, q := range qs {
-		for _, m := range o[q] {
+		for _, m := range o.Q[q] {
 			if m.Kind == "slc" {
 				fmt.Fprintf(&sb, "%s#%d:%s;", q, m.ID, m.Raw)
 			}
@@ -230,6 +277,22 @@ func slcOnly(o obs) string {
 }
 
 func (e *env) digest(ctx sdk.Context) string { return e.w.StoreDigest(ctx, hashedStores...) }
+
+// before / digBefore: observation and digest of the state an operation starts from
+// (the parent's cached values unless caching is off).
+func (e *env) before(ctx sdk.Context, g *ghost) (*obs, *explore.Fail) {
+	if !e.nocache && g.parentObs != nil {
+		return g.parentObs, nil
+	}
+	return e.observe(ctx)
+}
+
+func (e *env) digBefore(ctx sdk.Context, g *ghost) string {
+	if !e.nocache && g.parentDig != "" {
+		return g.parentDig
+	}
+	return e.digest(ctx)
+}
 
 func leftPad32(b []byte) []byte {
 	out := make([]byte, 32)
@@ -307,6 +370,7 @@ func run(r *report.Run, shard, nshards int, replayFile string) {
 		must(pprof.StartCPUProfile(f))
 		defer pprof.StopCPUProfile()
 	}
+	debug.SetGCPercent(400) // states are small and short-lived; trade memory for collector time
 	w := world.New(world.Config{Stakes: world.StakesOf(1_000_000, 1_000_000, 1_000_000), Users: []string{"U1", "U2"}, Height: 101})
 	ctx := w.Root
 	e := &env{w: w, r: r, users: []*world.Actor{w.User("U1"), w.User("U2")}, shard: shard, nshards: nshards, maxSnaps: 1}
@@ -336,17 +400,17 @@ func run(r *report.Run, shard, nshards int, replayFile string) {
 
 	qn, err := w.App.ConsensusKeeper.GetAllQueueNames(ctx, &ctypes.QueryGetAllQueueNamesRequest{})
 	must(err)
-	e.queues = append([]string{}, qn.Queues...)
-	sort.Strings(e.queues)
 	for _, ref := range []string{refA, refB} {
 		found := false
-		for _, q := range e.queues {
+		for _, q := range qn.Queues {
 			found = found || q == world.TurnstoneQueue(ref)
 		}
 		if !found {
-			panic("turnstone queue of " + ref + " not registered: " + strings.Join(e.queues, ","))
+			panic("turnstone queue of " + ref + " not registered: " + strings.Join(qn.Queues, ","))
 		}
+		e.queues = append(e.queues, world.TurnstoneQueue(ref))
 	}
+	r.Extra["consensus_queues_registered"] = float64(len(qn.Queues))
 
 	// contract identities: a 32-byte (instantiate2-style) and a 20-byte (classic) address
 	c32 := make([]byte, 32)
@@ -386,7 +450,9 @@ func run(r *report.Run, shard, nshards int, replayFile string) {
 	if f0 != nil {
 		panic(f0.Message)
 	}
-	for q, ms := range o0 {
+	e.other0 = o0.Other
+	e.nocache = os.Getenv("VERIF_PARANOID") != "" || replayFile != ""
+	for q, ms := range o0.Q {
 		for _, m := range ms {
 			if m.Kind == "slc" {
 				panic("contract call queued by set-up")
@@ -406,6 +472,8 @@ func run(r *report.Run, shard, nshards int, replayFile string) {
 	sctx := world.Fork(ctx)
 	sg := g0.Clone().(*ghost)
 	sg.depth = 0
+	nc := e.nocache
+	e.nocache = true
 	for _, lbl := range []string{"Create(U1,j1,fixed,P1)", "Create(U2,j2,modifiable,P2)"} {
 		done := false
 		for _, op := range e.ops(&explore.Node{Ctx: sctx, Ghost: sg}) {
@@ -424,6 +492,8 @@ func run(r *report.Run, shard, nshards int, replayFile string) {
 		panic("seeding did not create two jobs")
 	}
 	sg.depth = 0
+	sg.obsHere, sg.parentObs, sg.digHere, sg.parentDig = nil, nil, "", ""
+	e.nocache = nc
 	seeded := explore.Spec{
 		Name: "seeded", Init: []*explore.Node{{Ctx: sctx, Ghost: sg}}, Ops: e.ops,
 		Hash: e.hash, Invariant: e.invariant,
@@ -434,6 +504,9 @@ func run(r *report.Run, shard, nshards int, replayFile string) {
 		fresh.MaxDepth = 6
 		seeded.MaxDepth = 7
 	}
+	if v := os.Getenv("VERIF_C17_DEPTHS"); v != "" { // experiments only
+		fmt.Sscanf(v, "%d,%d", &fresh.MaxDepth, &seeded.MaxDepth)
+	}
 	specs := []explore.Spec{fresh, seeded}
 	if replayFile != "" {
 		if shard == 0 {
@@ -442,7 +515,6 @@ func run(r *report.Run, shard, nshards int, replayFile string) {
 		return
 	}
 	for _, spec := range specs {
-		// reset the per-run extra counters' seeding guard: nothing to do, count() is path-depth based
 		res := explore.Run(r, spec)
 		if shard == 0 {
 			r.Extra["depth_completed:"+spec.Name] = float64(res.DepthCompleted)
@@ -484,7 +556,11 @@ func replay(r *report.Run, specs []explore.Spec, file string) {
 }
 
 func (e *env) hash(n *explore.Node) string {
-	h := sha256.Sum256([]byte(n.Ghost.Key() + "|" + e.digest(n.Ctx)))
+	g := n.Ghost.(*ghost)
+	if e.nocache || g.digHere == "" {
+		g.digHere = e.digest(n.Ctx)
+	}
+	h := sha256.Sum256([]byte(g.Key() + "|" + g.digHere))
 	return string(h[:20])
 }
 
@@ -509,14 +585,21 @@ func (e *env) invariant(n *explore.Node) *explore.Fail {
 		}
 	}
 	// (2) the SubmitLogicCall messages of every queue are exactly the expected calls
-	o, f := e.observe(n.Ctx)
-	if f != nil {
-		return f
+	o := g.obsHere
+	if e.nocache || o == nil {
+		var f *explore.Fail
+		if o, f = e.observe(n.Ctx); f != nil {
+			return f
+		}
+		g.obsHere = o
+	}
+	if o.Other != e.other0 {
+		return explore.Failf("queue:foreign-queue-changed", "consensus state outside the two turnstone queues changed (digest %s, baseline %s)", o.Other, e.other0)
 	}
 	for _, q := range e.queues {
 		var got []call
 		last := uint64(0)
-		for i, m := range o[q] {
+		for i, m := range o.Q[q] {
 			if i > 0 && m.ID <= last {
 				return explore.Failf("queue:ids-not-increasing", "queue %s: id %d follows id %d", q, m.ID, last)
 			}
@@ -638,14 +721,22 @@ func (e *env) created(ctx sdk.Context, g *ghost, id string, creator sdk.AccAddre
 //
 //	ok       the request reported success
 //	before   queues before, after queues after (same context)
-func (e *env) requestDone(g *ghost, kind, id string, requester, senderField, contractField sdk.AccAddress, sup supplied, ok bool, before, after obs, dBefore, dAfter string, turnstone string, deadline int64) *explore.Fail {
+func (e *env) requestDone(ctx sdk.Context, g *ghost, kind, id string, requester, senderField, contractField sdk.AccAddress, sup supplied, ok bool, before *obs, dBefore string) *explore.Fail {
 	rec := g.Jobs[id]
+	turnstone, deadline := world.CompassID, ctx.BlockTime().Add(10*time.Minute).Unix()
 	if !ok {
-		if dBefore != dAfter {
+		g.digHere = e.digest(ctx)
+		if dBefore != g.digHere {
 			return explore.Failf(kind+":failed-request-changed-state", "a failed request on %s changed scheduler/consensus/treasury/valset state", id)
 		}
+		g.obsHere = before // byte-identical stores: identical observation
 		return nil
 	}
+	after, f := e.observe(ctx)
+	if f != nil {
+		return f
+	}
+	g.obsHere = after
 	if rec == nil {
 		return explore.Failf(kind+":unknown-job-ran", "request on job %s, which was never created, succeeded", id)
 	}
@@ -662,11 +753,11 @@ func (e *env) requestDone(g *ghost, kind, id string, requester, senderField, con
 		Sender: hex.EncodeToString(senderField), CAddr: hex.EncodeToString(contractField), MEV: rec.MEV, Deadline: deadline}
 	for _, q := range e.queues {
 		bm := map[uint64]qmsg{}
-		for _, m := range before[q] {
+		for _, m := range before.Q[q] {
 			bm[m.ID] = m
 		}
 		var added []qmsg
-		for _, m := range after[q] {
+		for _, m := range after.Q[q] {
 			if old, was := bm[m.ID]; was {
 				if old != m {
 					return explore.Failf(kind+":queued-message-mutated", "queue %s message %d (%s) changed during a request on %s", q, m.ID, m.Kind, id)
@@ -760,7 +851,7 @@ func diffClass(got, want call, rec *jobRec, sup supplied) string {
 
 // handlerProbe runs f (the bare handler) on a throw-away fork and demands that a
 // failing handler has not left a contract call behind even before any roll-back.
-func (e *env) handlerProbe(ctx sdk.Context, kind string, before obs, f func(c sdk.Context) error) *explore.Fail {
+func (e *env) handlerProbe(ctx sdk.Context, kind string, before *obs, f func(c sdk.Context) error) *explore.Fail {
 	c := world.Fork(ctx)
 	err, _ := world.Protect(func() error { return f(c) })
 	if err == nil {
@@ -792,8 +883,11 @@ func (e *env) ops(n *explore.Node) []explore.Op {
 			g := gg.(*ghost)
 			job := mkJob(id, v, mod, mev)
 			job.Owner = ownerField
-			dBefore := e.digest(*ctx)
-			cBefore := w.StoreDigest(*ctx, "palomaconsensus")
+			dBefore := e.digBefore(*ctx, g)
+			before, f := e.before(*ctx, g)
+			if f != nil {
+				return f
+			}
 			res, f := e.deliverWire(*ctx, signer, &schedtypes.MsgCreateJob{Job: job, Metadata: world.Meta(signer)}, true)
 			if f != nil {
 				return f
@@ -804,14 +898,21 @@ func (e *env) ops(n *explore.Node) []explore.Op {
 					// a creation of a fresh id with well-formed content: not a property matter, but worth knowing
 					e.count(g, "create:fresh-id-rejected")
 				}
-				if e.digest(*ctx) != dBefore {
+				g.digHere = e.digest(*ctx)
+				if g.digHere != dBefore {
 					return explore.Failf("create:failed-request-changed-state", "failed creation of %s (%v) changed state", id, res.Err)
 				}
+				g.obsHere = before
 				return nil
 			}
 			e.count(g, "create:ok")
-			if w.StoreDigest(*ctx, "palomaconsensus") != cBefore {
-				return explore.Failf("create:touched-queues", "creation of %s changed the consensus store", id)
+			after, f := e.observe(*ctx)
+			if f != nil {
+				return f
+			}
+			g.obsHere = after
+			if !sameObs(before, after) {
+				return explore.Failf("create:touched-queues", "creation of %s changed the consensus queues", id)
 			}
 			return e.created(*ctx, g, id, signer.Addr, v, mod, mev, "")
 		}}
@@ -841,16 +942,30 @@ func (e *env) ops(n *explore.Node) []explore.Op {
 			cm := libwasm.CustomMessage{Scheduler: &bindingstypes.Message{CreateJob: &bindingstypes.CreateJob{Job: &bindingstypes.Job{
 				JobId: id, ChainType: "evm", ChainReferenceId: v.Chain, Definition: string(v.Def), Payload: string(v.Payload), PayloadModifiable: true}}}}
 			bz, _ := json.Marshal(cm)
-			dBefore := e.digest(*ctx)
+			dBefore := e.digBefore(*ctx, g)
+			before, f := e.before(*ctx, g)
+			if f != nil {
+				return f
+			}
 			err := e.dispatch(*ctx, c.Addr, bz)
 			if err != nil {
 				e.count(g, "create-contract:fail:"+errClass(err))
-				if e.digest(*ctx) != dBefore {
+				g.digHere = e.digest(*ctx)
+				if g.digHere != dBefore {
 					return explore.Failf("create:failed-request-changed-state:contract", "failed contract creation of %s (%v) changed state", id, err)
 				}
+				g.obsHere = before
 				return nil
 			}
 			e.count(g, "create-contract:ok")
+			after, f := e.observe(*ctx)
+			if f != nil {
+				return f
+			}
+			g.obsHere = after
+			if !sameObs(before, after) {
+				return explore.Failf("create:touched-queues:contract", "contract creation of %s changed the consensus queues", id)
+			}
 			return e.created(*ctx, g, id, c.Addr, v, true, false, ":contract")
 		}})
 	}
@@ -866,7 +981,7 @@ func (e *env) ops(n *explore.Node) []explore.Op {
 					msg := func() *schedtypes.MsgExecuteJob {
 						return &schedtypes.MsgExecuteJob{JobID: id, Payload: sup.Bytes, Metadata: world.Meta(u)}
 					}
-					before, f := e.observe(*ctx)
+					before, f := e.before(*ctx, g)
 					if f != nil {
 						return f
 					}
@@ -877,18 +992,14 @@ func (e *env) ops(n *explore.Node) []explore.Op {
 					}); f != nil {
 						return f
 					}
-					dBefore := e.digest(*ctx)
+					dBefore := e.digBefore(*ctx, g)
 					// an empty-but-present payload cannot travel on the wire: deliver that one in memory
 					res, f := e.deliverWire(*ctx, u, msg(), sup.Name != "empty")
 					if f != nil {
 						return f
 					}
-					after, f := e.observe(*ctx)
-					if f != nil {
-						return f
-					}
 					e.countReq(g, "exec", id, sup, res.Err)
-					return e.requestDone(g, "exec", id, u.Addr, u.Addr, nil, sup, res.OK(), before, after, dBefore, e.digest(*ctx), world.CompassID, ctx.BlockTime().Add(10*time.Minute).Unix())
+					return e.requestDone(*ctx, g, "exec", id, u.Addr, u.Addr, nil, sup, res.OK(), before, dBefore)
 				}})
 			}
 		}
@@ -907,7 +1018,7 @@ func (e *env) ops(n *explore.Node) []explore.Op {
 					} else {
 						bz, _ = json.Marshal(libwasm.CustomMessage{Scheduler: &bindingstypes.Message{ExecuteJob: &bindingstypes.ExecuteJob{JobID: id, Sender: c.Addr.String(), Payload: sup.Bytes}}})
 					}
-					before, f := e.observe(*ctx)
+					before, f := e.before(*ctx, g)
 					if f != nil {
 						return f
 					}
@@ -917,14 +1028,10 @@ func (e *env) ops(n *explore.Node) []explore.Op {
 					}); f != nil {
 						return f
 					}
-					dBefore := e.digest(*ctx)
+					dBefore := e.digBefore(*ctx, g)
 					err := e.dispatch(*ctx, c.Addr, bz)
-					after, f := e.observe(*ctx)
-					if f != nil {
-						return f
-					}
 					e.countReq(g, "exec-contract", id, sup, err)
-					return e.requestDone(g, "exec-contract", id, c.Addr, c.Addr, c.Addr, sup, err == nil, before, after, dBefore, e.digest(*ctx), world.CompassID, ctx.BlockTime().Add(10*time.Minute).Unix())
+					return e.requestDone(*ctx, g, "exec-contract", id, c.Addr, c.Addr, c.Addr, sup, err == nil, before, dBefore)
 				}})
 			}
 		}
